@@ -51,31 +51,7 @@ impl ReaderState {
             bang_type is Comment ==> buf@.len() >= 5 && buf@[buf@.len() - 1] == 0x2d && buf@[buf@.len() - 2] == 0x2d,
             bang_type is CData ==> buf@.len() >= 2 && buf@[buf@.len() - 1] == 0x5d && buf@[buf@.len() - 2] == 0x5d,
         ensures
-            final(self).same_control(old(self)), final(self).same_stack(old(self)),
-            r is Ok ==> final(self).last_error_offset == old(self).last_error_offset,
-            r is Err ==> final(self).last_error_offset <= final(self).offset,
-            ({
-                let len = buf@.len() as int;
-                if bang_type is Comment && sw(buf@, seq![0x21u8, 0x2d, 0x2d]) {
-                    if old(self).config.check_comments && exists|p: int| double_hyphen_at(buf@, p) {
-                        r matches Err(Error::IllFormed(IllFormedError::DoubleHyphenInComment))
-                    } else {
-                        r matches Ok(Event::Comment(e)) && e.content@ == buf@.subrange(3, len - 2)
-                    }
-                } else if bang_type is CData && sw(buf@, seq![0x21u8, 0x5b, 0x43, 0x44, 0x41, 0x54, 0x41, 0x5b]) {
-                    r matches Ok(Event::CData(e)) && e.content@ == buf@.subrange(8, len - 2)
-                } else if bang_type == BangType::DocType(0) && uncased_sw(buf@, seq![0x21u8, 0x44, 0x4f, 0x43, 0x54, 0x59, 0x50, 0x45]) {
-                    if exists|i: int| 8 <= i < len && !is_ws(buf@[i]) {
-                        r matches Ok(Event::DocType(e)) && e.content@ == trimmed_start(buf@.subrange(8, len))
-                    } else {
-                        &&& r matches Err(Error::IllFormed(IllFormedError::MissingDoctypeName))
-                        &&& final(self).last_error_offset == old(self).offset - 1
-                    }
-                } else {
-                    &&& r matches Err(Error::Syntax(e)) && e == bang_type.spec_to_err()
-                    &&& final(self).last_error_offset == old(self).offset - len - 2
-                }
-            }),
+            post_emit_bang(old(self), final(self), bang_type, buf@, r),
  {
         assert!(
             buf.first() ==
@@ -202,30 +178,7 @@ impl ReaderState {
             old(self).wf(), buf@.len() >= 1, buf@[0] == 0x2f,
             old(self).offset >= buf@.len() + 2,
         ensures
-            final(self).wf(), final(self).same_control(old(self)),
-            r is Ok ==> final(self).last_error_offset == old(self).last_error_offset,
-            ({
-                let s = old(self).stack();
-                let name = end_name(buf@.subrange(1, buf@.len() as int), old(self).config.trim_markup_names_in_closing_tags);
-                if s.len() > 0 {
-                    &&& final(self).stack() == s.drop_last()
-                    &&& if !old(self).config.check_end_names || name == s.last() {
-                            r matches Ok(Event::End(e)) && e.name@ == name
-                        } else {
-                            &&& r matches Err(Error::IllFormed(IllFormedError::MismatchedEndTag { expected, found }))
-                                && expected == dec_string(old(self).decoder_spec(), s.last()) && found == dec_string(old(self).decoder_spec(), name)
-                            &&& final(self).last_error_offset == old(self).offset - buf@.len() - 2
-                        }
-                } else {
-                    &&& final(self).stack() == s
-                    &&& if old(self).config.allow_unmatched_ends {
-                            r matches Ok(Event::End(e)) && e.name@ == name
-                        } else {
-                            &&& r matches Err(Error::IllFormed(IllFormedError::UnmatchedEndTag(found))) && found == dec_string(old(self).decoder_spec(), name)
-                            &&& final(self).last_error_offset == old(self).offset - buf@.len() - 2
-                        }
-                }
-            }),
+            post_emit_end(old(self), final(self), buf@, r),
  {
         assert!(
             buf.first() ==
@@ -300,22 +253,7 @@ impl ReaderState {
             buf@.len() >= 1, buf@[0] == 0x3f,
             old(self).offset >= buf@.len() + 2,
         ensures
-            final(self).same_control(old(self)), final(self).same_stack(old(self)),
-            ({
-                let len = buf@.len() as int;
-                if len > 1 && buf@[len - 1] == 0x3f {
-                    let content = buf@.subrange(1, len - 1);
-                    &&& final(self).last_error_offset == old(self).last_error_offset
-                    &&& if sw(content, seq![0x78u8, 0x6d, 0x6c]) && (content.len() == 3 || is_ws(content[3])) {
-                            r matches Ok(Event::Decl(e)) && e.content.buf@ == content && e.content.name_len == 3
-                        } else {
-                            r matches Ok(Event::PI(e)) && e.content.buf@ == content && e.content.name_len == spec_name_len(content)
-                        }
-                } else {
-                    &&& r matches Err(Error::Syntax(SyntaxError::UnclosedPIOrXmlDecl))
-                    &&& final(self).last_error_offset == old(self).offset - len - 2
-                }
-            }),
+            post_emit_question_mark(old(self), final(self), buf@, r),
  {
         assert!(buf.len() > 0);
         assert!(buf[0] == b'?');
@@ -349,30 +287,7 @@ impl ReaderState {
  pub(crate) fn emit_start<'b>(&mut self, content: &'b [u8]) -> (r: Event<'b>)
         requires old(self).wf()
         ensures
-            final(self).wf(), final(self).offset == old(self).offset, final(self).config == old(self).config,
-            final(self).last_error_offset == old(self).last_error_offset,
-            ({
-                let n = content@.len() as int;
-                let s = old(self).stack();
-                if n > 0 && content@[n - 1] == 0x2f {
-                    let c = content@.subrange(0, n - 1);
-                    let name = c.subrange(0, spec_name_len(c) as int);
-                    if old(self).config.expand_empty_elements {
-                        &&& r matches Event::Start(e) && e.buf@ == c && e.name_len == spec_name_len(c)
-                        &&& final(self).state is InsideEmpty
-                        &&& final(self).stack() == s.push(name)
-                    } else {
-                        &&& r matches Event::Empty(e) && e.buf@ == c && e.name_len == spec_name_len(c)
-                        &&& final(self).state == old(self).state
-                        &&& final(self).stack() == s
-                    }
-                } else {
-                    let name = content@.subrange(0, spec_name_len(content@) as int);
-                    &&& r matches Event::Start(e) && e.buf@ == content@ && e.name_len == spec_name_len(content@)
-                    &&& final(self).state == old(self).state
-                    &&& final(self).stack() == s.push(name)
-                }
-            }),
+            post_emit_start(old(self), final(self), content@, r),
  {
         proof { axiom_pattern_array::<u8, 1>(); }
         if let Some(content) = content.strip_suffix(&[b'/']) {
